@@ -29,8 +29,10 @@ RUNS = [
 ]
 
 
-def run_all(repo, R, rule="AXTYPE-K"):
-    """-> list of (name, func, extractor or None).  Ill-typed kernels are reported under `rule`."""
+def run_all(repo, R, rule="AXTYPE-K", relevant=None):
+    """-> list of (name, func, extractor or None).  Ill-typed kernels are reported under `rule`; with `relevant` (a predicate on the
+    bases of the axes that do not fit) only the mismatches the calling property is about - the others belong to the property of the
+    operator itself and are left to its check."""
     out = []
     for name, qual, envf, ifh in RUNS:
         f = repo.func(qual)
@@ -39,6 +41,10 @@ def run_all(repo, R, rule="AXTYPE-K"):
             tag = name + ("".join(f"[{k}={'T' if v else 'F'}]" for k, v in sorted(choices.items())) if choices else "")
             if isinstance(ex, LabelMismatch):
                 lm = ex
+                if relevant is not None and lm.involved is not None and not relevant([b for b in lm.involved if b is not None]):
+                    R.extra.setdefault("mismatches_left_to_the_operator_checks", []).append(f"[{name}] {lm.msg}"[:200])
+                    out.append((name, f, None))
+                    continue
                 g = f
                 for cand in repo.all_functions():
                     if any(n is lm.node for n in ast.walk(cand.node)):
